@@ -9,6 +9,8 @@ package ch
 
 //@ valid (c *Client): c != nil ==> c.conn != nil && c.lg != nil && (c.otel ==> c.tracer != nil) && c.writer != nil && c.compressor != nil && wRI(c.writer)
 //@ global ErrClosed: ErrClosed != nil
+//@ -- C12 (lock discipline only): the closed flag is read and written only while c.mux is held
+//@ guarded (Client) closed by mux
 
 // ---------------------------------------------------------------------------
 // C04 / C10: closing, flushing a private buffer, cancelling
